@@ -43,7 +43,7 @@ def tags_of(agents):
 
 def better(a, b, direction):
     """a strictly better than b in the given direction (user-facing costs)."""
-    return a < b if direction == TaskType.MIN else a > b
+    return a < b if direction == TaskType.MIN else a > b          # (RAW_MAX is a maximisation)
 
 
 def config(**kw):
@@ -99,9 +99,22 @@ class RecordingTask(M.Task):
         return r
 
 
+class _RawMax:
+    """direction given as the raw string "max" that bypassed validation (class-level default, attribute assignment,
+    model_copy(update=...)): every direction test of the library is written `== TaskType.MIN ... else maximise`"""
+
+
+RAW_MAX = _RawMax()
+DIRS["max-str"] = RAW_MAX
+
+
 def make_task(variables, f, minmax=TaskType.MIN, weights=None, seed=None, mutate=False):
-    return RecordingTask(variables=variables, minmax=minmax, objective_weights=weights, seed=seed,
-                         data={"log": [], "f": f, "mutate": mutate})
+    raw = minmax is RAW_MAX
+    t = RecordingTask(variables=variables, minmax=TaskType.MAX if raw else minmax, objective_weights=weights, seed=seed,
+                      data={"log": [], "f": f, "mutate": mutate})
+    if raw:
+        t.minmax = "max"
+    return t
 
 
 # ------------------------------------------------------------------------------------------------ variable shapes
@@ -218,9 +231,10 @@ def in_space(position, decls):
 
 
 def sym_candidate(decls, prefix="x", kind="real"):
-    """A candidate vector for a search space: one symbolic number per scalar coordinate (`kind`: real | ext | any),
-    a list of numbers for a permutation coordinate."""
-    mk = {"real": sym.real, "ext": sym.ext_real, "any": sym.any_float}[kind]
+    """A candidate vector for a search space: one symbolic number per scalar coordinate (`kind`: real | ext | any |
+    int - Python ints, as integer-only update rules produce them), a list of numbers for a permutation coordinate."""
+    mk = {"real": sym.real, "ext": sym.ext_real, "any": sym.any_float,
+          "int": lambda name: sym.integer(name, -4, 6)}[kind]
     out = []
     for i, d in enumerate(decls):
         if d[0] == "perm":
